@@ -498,9 +498,12 @@ fn cancel_faults_w(ctx: &Ctx, rng: &mut Rng, s: &SizeInfo, faults: &mut Vec<Faul
 /// Add a random multiple of prod_{i in roots}(x - alpha^i) to one block: the syndromes S_i, i in roots,
 /// stay consistent with "no error", the others (almost surely) do not.
 fn aligned_faults(ctx: &Ctx, rng: &mut Rng, s: &SizeInfo, b: usize, roots: &[usize], faults: &mut Vec<Fault>) -> bool {
-    if !ctx.gf_ok[s.idx] {
-        return false;
-    }
+    // `roots` are 1-based indices into the roots of the generator the crate's encoder actually uses
+    // (sorted by discrete log: index i is alpha^i for the standard's code)
+    let enc_roots = match ctx.enc_gen[s.idx].as_ref() {
+        Some((_, r)) if r.len() == s.k => r,
+        _ => return false,
+    };
     let gf = &ctx.gf;
     let pos = s.block_positions(b);
     let nb = pos.len();
@@ -508,7 +511,16 @@ fn aligned_faults(ctx: &Ctx, rng: &mut Rng, s: &SizeInfo, b: usize, roots: &[usi
     if j + 1 > nb {
         return false;
     }
-    let g = gf.generator_for_roots(roots);
+    let mut g = vec![1u8];
+    for i in roots {
+        let a = enc_roots[(*i - 1).min(s.k - 1)];
+        let mut ng = vec![0u8; g.len() + 1];
+        for (d, c) in g.iter().enumerate() {
+            ng[d] ^= *c;
+            ng[d + 1] ^= gf.mul(*c, a);
+        }
+        g = ng;
+    }
     let max_m = nb - j; // number of coefficients of the multiplier
     let m_len = match rng.below(4) {
         0 => 1,
@@ -535,15 +547,18 @@ fn aligned_faults(ctx: &Ctx, rng: &mut Rng, s: &SizeInfo, b: usize, roots: &[usi
 /// Optionally accompanied by real errors so that ghosts + real <= t: the locator is perfectly
 /// consistent, only the range check on the located positions can tell.
 fn ghost_faults(ctx: &Ctx, rng: &mut Rng, s: &SizeInfo, b: usize, faults: &mut Vec<Fault>) -> bool {
-    if !ctx.gf_ok[s.idx] || std::env::var_os("DMSIM_NO_GHOST").is_some() {
+    if std::env::var_os("DMSIM_NO_GHOST").is_some() {
         return false;
     }
+    // the generator the crate's encoder actually uses (the standard's when the encoder conforms)
+    let g = match ctx.enc_gen[s.idx].as_ref() {
+        Some((g, _)) if g.len() == s.k + 1 => g.clone(),
+        _ => return false,
+    };
     let gf = &ctx.gf;
     let pos = s.block_positions(b);
     let nb = pos.len();
     let t = s.t();
-    let roots: Vec<usize> = (1..=s.k).collect();
-    let g = gf.generator_for_roots(&roots);
     let n_ghosts = if rng.chance(2, 3) { 1 } else { rng.range(1, t.min(3)) };
     let mut degs: Vec<usize> = Vec::new();
     for _ in 0..n_ghosts {
